@@ -53,6 +53,7 @@ def run(ctx):
     x13(ctx, R)
     x14(ctx, R)
     x16(ctx, R)
+    x17(ctx, R)
     # ... by evaluation: the argument interpreter followed over sample argument sequences raises nothing but its own three exceptions
     from .geval import g11
     g11(ctx, R, aspects=("crash",))
@@ -1419,6 +1420,63 @@ def x11(ctx, R):
             ctx.holds("X11", "curlineno is computed by %s (its value is rule Z2 of C18; it raises nothing of its own)" % t[:40])
         else:
             ctx.violation("X11", ln, "lineno-formula", "curlineno is %s, not 1 + number of newlines before the position" % t, node=ln.node)
+
+
+# ------------------------------------------------------------------------------- X17
+def x17(ctx, R):
+    """The funnel's handler runs after ANY statement of the try body raised - possibly the first one.  A local it reads must therefore
+    be bound before the try (or by the handler itself): a local bound only inside the try body is unbound when the very first token is
+    already unreadable, and UnboundLocalError is not one of the exceptions parse() turns into a verdict."""
+    import builtins
+    ctx.rule("X17", "locals read by the funnel's handler are bound before the try")
+    tr, _caught = funnel(ctx, R, "X17")
+    f = R.parse
+    body = f.node.body
+    before = set(f.params)
+    top = None
+    for st in body:
+        if st is tr or any(x is tr for x in ast.walk(st)):
+            top = st
+            break
+        for x in ast.walk(st):
+            if isinstance(x, ast.Name) and isinstance(x.ctx, ast.Store):
+                # bound on every path only when the binding statement is not nested under a condition / loop
+                p_ = getattr(x, "_parent", None)
+                cond = False
+                while p_ is not None and p_ is not f.node:
+                    if isinstance(p_, (ast.If, ast.For, ast.While, ast.Try, ast.With)) and type(p_).__name__ != "InlineBlock":
+                        cond = True
+                    p_ = getattr(p_, "_parent", None)
+                if not cond:
+                    before.add(x.id)
+    # ... or by the first statements of the try body, as long as they only bind constants (nothing before them can raise)
+    from .c13 import _cannot_raise
+    for st in tr.body:
+        if not _cannot_raise(st):
+            break
+        for x in ast.walk(st):
+            if isinstance(x, ast.Name) and isinstance(x.ctx, ast.Store):
+                before.add(x.id)
+    module_names = set(f.module.assigns) | set(f.module.imports) | set(f.module.funcs) | set(f.module.classes) | set(dir(builtins))
+    in_try = {x.id for b_ in tr.body for x in ast.walk(b_) if isinstance(x, ast.Name) and isinstance(x.ctx, ast.Store)}
+    n = 0
+    for h in tr.handlers:
+        own = {h.name} if h.name else set()
+        for st in h.body:
+            for x in ast.walk(st):
+                if isinstance(x, ast.Name) and isinstance(x.ctx, ast.Store):
+                    own.add(x.id)
+        for st in h.body:
+            for x in ast.walk(st):
+                if isinstance(x, ast.Name) and isinstance(x.ctx, ast.Load) and x.id not in before and x.id not in own and x.id not in module_names:
+                    n += 1
+                    if x.id in in_try:
+                        ctx.violation("X17", f, "handler-reads-unbound:%s" % x.id, "the funnel's handler reads the local `%s`, which is bound only "
+                                      "inside the try body: when the first statement that raises comes before that binding, the handler itself "
+                                      "raises UnboundLocalError" % x.id, node=x,
+                                      witness="a script whose very first byte is no token (a BOM, `$`): parse() raises UnboundLocalError")
+    if not any(fd_.rule == "X17" for fd_ in ctx.findings):
+        ctx.holds("X17", "%s: every local the handler reads is a parameter, bound before the try, or bound by the handler" % f.qualname)
 
 
 # ------------------------------------------------------------------------------- X16
